@@ -244,6 +244,9 @@ class ScatterS2(DaskSeg):
         return [Clause('C20.releases_after_the_awaited_emission', ['C20', 'C04', 'C05'], when='raise:Return',
                        text='delta == -occ(metadata) and emitted == []')]
 
+    def cover(self, outcomes):
+        return [('segment ends with gen.Return', any(o.kind == 'raise' and o.value.cls == 'Return' for o in outcomes))]
+
 
 class GatherS0(ScatterS0):
     cls = 'gather'
